@@ -25,11 +25,13 @@ use buffers::trim_byte;
 //@@ include body_prelude
 //@@ include body_code
 //@@ include settings_types
+//@@ include write_prelude
 //@@ include response_prelude
 //@@ include response_code
 }
 //@@ include errors_tail
 //@@ include http_tail
 //@@ include body_tail
+//@@ include response_tail
 impl Read for BaseStream { fn read(&mut self, b: &mut [u8]) -> io::Result<usize> { unimplemented!() } }
 fn main(){}
